@@ -11,7 +11,6 @@ import time
 
 import equinox as eqx
 import jax
-import jax.numpy as jnp
 import numpy as np
 from jax import random as jr
 
